@@ -711,6 +711,15 @@ class SymEnum:
     def __format__(self, spec):
         return "<symbolic value>"
 
+    def __float__(self):
+        return float(self.get())        # (C functions such as math.isnan ask for the float value: fork over the alternatives)
+
+    def __int__(self):
+        return int(self.get())
+
+    def __index__(self):
+        return self.get().__index__()
+
     def __add__(self, o):
         # concatenation/addition needs the concrete values: fork over the feasible ones
         return self.get() + (o.get() if isinstance(o, SymEnum) else o)
